@@ -41,7 +41,7 @@
 
 /* ---------------------------------------------------------------- alloc tracking */
 #define TLS __thread
-static TLS int g_track = 0;
+static TLS volatile int g_track = 0;   /* volatile: the compiler knows malloc/free do not read globals and would drop the stores around an inlined free() */
 static TLS long g_mallocs = 0, g_live = 0;
 #ifndef VSHIM_NO_WRAP
 void *__real_malloc(size_t);
@@ -53,7 +53,7 @@ void *__wrap_calloc(size_t a, size_t b) { void *p = __real_calloc(a, b); if (g_t
 void *__wrap_realloc(void *q, size_t n) { void *p = __real_realloc(q, n); if (g_track && !q && p) { g_mallocs++; g_live++; } return p; }
 void __wrap_free(void *p) { if (g_track && p) g_live--; __real_free(p); }
 #endif
-#define CALL(stmt) do { g_track = 1; stmt; g_track = 0; } while (0)
+#define CALL(stmt) do { g_track = 1; __asm__ __volatile__("" ::: "memory"); stmt; __asm__ __volatile__("" ::: "memory"); g_track = 0; } while (0)
 
 /* ---------------------------------------------------------------- callbacks */
 static TLS long g_ill = 0, g_err = 0;
